@@ -3569,6 +3569,24 @@ impl Zeroconf {
 
             Command::InvalidIntfAddrs(invalid_intf_addrs) => {
                 for intf_addr in invalid_intf_addrs {
+                    // If this is the last address of its interface, the interface is
+                    // about to be removed: drop what was learned on it and report the
+                    // changes first, as `check_ip_changes` does for the interfaces it
+                    // finds missing. (`del_interface_addr` only drops address records.)
+                    let if_index = intf_addr.index.unwrap_or(0);
+                    let is_last_addr = self.my_intfs.get(&if_index).is_some_and(|my_intf| {
+                        my_intf.addrs.len() == 1 && my_intf.addrs.contains(&intf_addr.addr)
+                    });
+                    if is_last_addr {
+                        let intf_id = InterfaceId {
+                            name: intf_addr.name.clone(),
+                            index: if_index,
+                        };
+                        let result = self.cache.remove_records_on_intf(intf_id);
+                        self.notify_service_removal(result.removed_instances);
+                        self.resolve_updated_instances(&result.modified_instances);
+                    }
+
                     self.del_interface_addr(&intf_addr);
                 }
 
